@@ -321,8 +321,8 @@ def check_c04(tier, seed):
 
     def shard(i):
         args = ["c04", "-tier", tier, "-corpus", sc.corpus_path, "-seed", str(seed), "-shard", str(i), "-nshard", str(nshard), "-clisamples", clidir]
-        if tier == "thorough":
-            args += ["-budget", "1500"]  # documents are taken smallest first; what did not fit is reported in the evidence
+        # documents are taken smallest first; what did not fit into the wall budget is reported in the evidence
+        args += ["-budget", "1500" if tier == "thorough" else "60"]
         rc, lines, err = vlib.run_chunk(harness, args, {"GOMAXPROCS": "1" if i % 2 else "2"}, 7200 if tier == "thorough" else 900)
         if not any("shard_done" in l for l in lines) and ("panic:" in err or "fatal error:" in err):
             # the driver process was killed by a panic it cannot recover: one raised in a goroutine the library started.
@@ -362,8 +362,10 @@ def check_c04(tier, seed):
     n_lib_viol = sum(d["n_violations"] for d in docs)
     viols += killed
 
+    log("C04 direct half done after %.0fs" % (time.time() - t0))
     # CLI half: the instrumented binary over the simulated disk
     cli = c04_cli(sc, simacv, clidir, seed, tier)
+    log("C04 CLI half done after %.0fs" % (time.time() - t0))
     viols += cli["violations"]
 
     # concurrent half (engine A): several tasks validate the same unreadable document at once
@@ -371,6 +373,7 @@ def check_c04(tier, seed):
     if agg.harness:
         raise HarnessError("reference computation failed: " + agg.harness[0]["harness_error"][:1000])
     nviol_conc = vlib.report_violations_a("C04", sc, harness, agg)
+    log("C04 concurrent half done after %.0fs" % (time.time() - t0))
 
     known = vlib.load_known("C04")
     rdir = vlib.out_dir("replays")
